@@ -210,7 +210,12 @@ func runCaseOnce(cs Case, env *shellEnv) (key, expected, observed string, inconc
 	snaps := make([]string, len(ins)) // copies taken when each call returned
 	for i, s := range ins {
 		if strings.IndexByte(s, 0) >= 0 {
-			return "", "", "input contains NUL (outside the property)", true
+			if cs.Oracle != "lexer" {
+				return "", "", "input contains NUL (outside the property)", true
+			}
+			// lexer cases may carry neighbour calls with a NUL argument: made, never judged
+			callEscape(cs.Fn, s)
+			continue
 		}
 		e, p := callEscape(cs.Fn, s)
 		if p != "" {
@@ -228,6 +233,9 @@ func runCaseOnce(cs Case, env *shellEnv) (key, expected, observed string, inconc
 		}
 	case "lexer":
 		for i, s := range ins {
+			if strings.IndexByte(s, 0) >= 0 {
+				continue
+			}
 			if j := judgeLex(s, snaps[i], tilde); j != "" {
 				return caseKey(cs.Fn, "lexer", ins[i:i+1]), describeExpected(cs.Fn, ins[i:i+1], nil),
 					fmt.Sprintf("output %s read by the POSIX quoting model: %s", clipq(snaps[i]), j), false
@@ -303,6 +311,14 @@ func (mon) Plan(prop, tier string, seed int64) []drv.Shard {
 		a, _ := json.Marshal(shardArgs{Kind: "rand", Part: p, Parts: parts, Count: n, Shells: n})
 		out = append(out, drv.Shard{Name: fmt.Sprintf("rand-%d", p), Args: a, Secs: secs})
 	}
+	// the same functions in other process environments: a login shell that is not a POSIX shell, no
+	// SHELL at all, a dumb terminal, POSIXLY_CORRECT - the word is read by the POSIX shells all the same
+	for i, env := range [][]string{{"SHELL=/usr/bin/fish"}, {"SHELL=/bin/csh", "TERM=dumb"}, {"SHELL="}, {"SHELL=/usr/bin/zsh", "POSIXLY_CORRECT=1", "LANG=tr_TR.UTF-8"}} {
+		a, _ := json.Marshal(shardArgs{Kind: "corpus"})
+		out = append(out, drv.Shard{Name: fmt.Sprintf("corpus-env%d", i), Args: a, Secs: secs, Env: env})
+		a, _ = json.Marshal(shardArgs{Kind: "rand", Part: 100 + i, Parts: parts, Count: nrand / parts / 2, Shells: 200})
+		out = append(out, drv.Shard{Name: fmt.Sprintf("rand-env%d", i), Args: a, Secs: secs, Env: env})
+	}
 	// all strings of length <= 16 over {quote, letter}: quote-dense inputs are where size formulas
 	// of hand-written builders go wrong (lexer + retained results; thorough: also the shells)
 	const qlParts = 4
@@ -375,6 +391,16 @@ func nontrivial(s string) bool {
 
 func (r *runner) violate(cs Case) {
 	k, e, o, inc := runCase(cs, r.env)
+	if k == "" && !inc && cs.Oracle == "lexer" {
+		// not wrong on its own: is it wrong right after the kind of neighbour call the batch had made before
+		// it (an argument with a NUL byte, itself outside the property)? Then that history is the case.
+		if ins, err := cs.inputs(); err == nil && len(ins) == 1 {
+			cs2 := mkCase(cs.Fn, cs.Oracle, cs.Cfg, []string{"it's\x00" + ins[0], ins[0]})
+			if k2, e2, o2, inc2 := runCase(cs2, r.env); k2 != "" && !inc2 {
+				cs, k, e, o = cs2, k2+":after-a-call-with-NUL", e2+" (also when an earlier call was given an argument with a NUL byte)", o2
+			}
+		}
+	}
 	switch {
 	case inc:
 		r.c.Inconclusive(o)
@@ -434,7 +460,14 @@ func (r *runner) process(label string, ins []string, nShell int) {
 		escs := make([]string, len(ins))  // kept exactly as returned
 		snaps := make([]string, len(ins)) // strings.Clone at the moment of return
 		ok := make([]bool, len(ins))
+		nulCalls := 0
 		for i, s := range ins {
+			if i%17 == 5 {
+				// a neighbouring call with an argument outside the quantifier (a NUL byte): whatever it does -
+				// return something, panic - is not judged; the calls after it are
+				callEscape(fn, "it's\x00"+s)
+				nulCalls++
+			}
 			e, p := callEscape(fn, s)
 			c.Eval(1)
 			if p != "" {
@@ -456,6 +489,7 @@ func (r *runner) process(label string, ins []string, nShell int) {
 			}
 		}
 		c.Add("lexer_judgements", int64(len(ins)))
+		c.Add("unjudged_neighbour_calls_with_a_NUL_argument", int64(nulCalls))
 		// the results were all kept while the rest of the batch was escaped: do they still read
 		// as they did when they were returned, and as a fresh call returns them?
 		rt := &retained{fn: fn, ins: ins, kept: escs, snap: snaps}
